@@ -780,6 +780,7 @@ def run(ctx):
         ctx.count(("nsphere", dim, n), True)
     outs = ctx.coq_eval_many(items, jobs=12, timeout=1500)
     ncmp = nexact = 0
+    inexact = []
     suspects = []
     ns_bad = []
     for idx, o in zip(index, outs):
@@ -790,6 +791,8 @@ def run(ctx):
             dim, n, s, tr = ns_runs[idx[1]]
             ncmp += 1
             nexact += codes[0] == 0
+            if codes[0] == 1:
+                inexact.append("NSphere(%d, %d)" % (dim, n))
             if codes[0] not in (0, 1):
                 ctx.mismatch("NSphere(%d, %d)" % (dim, n), "model of the relaxation loop and implementation differ (code %r)" % codes[0])
                 ns_bad.append((dim, n, s))
@@ -797,11 +800,14 @@ def run(ctx):
         for i, code in zip(idx, codes):
             ncmp += 1
             nexact += code == 0
+            if code == 1:
+                inexact.append("contour case %d (%s, n_dim %d)" % (i, cases[i][0]["kind"], len(cases[i][0]["dims"])))
             if code not in (0, 1):
                 ctx.mismatch("contour case %d" % i, "%s differ: %r" % (CODES.get(code, code), cases[i][0]))
                 suspects.append(i)
     ctx.cov["programs"] = 3
     ctx.notes["correspondence"] = {"cases_compared": ncmp, "bit_exact": nexact, "mismatches": len(suspects) + len(ns_bad),
+                                   "within_1e-9_not_bit_exact": inexact[:10],
                                    "nsphere_full_loops": [(d, n) for d, n, _, _ in ns_runs]}
     # ---- search: property oracle, disagreeing inputs first, then everything
     found = 0
